@@ -93,6 +93,10 @@ CANARIES = [
     ('simd_kernels_neon', 'S', r'verif_load1_complex\(verif_in,\s*6\),?\s*\]', 'verif_load1_complex(verif_in, 7) ]', 'perform_fft_contiguous'),
     ('simd_kernels_wasm', 'S', r'verif_store_complex\(verif_out,\s*out02, 0\)', 'verif_store_complex(verif_out, out02, 3)', 'perform_parallel_fft_contiguous'),
     ('simd_kernels_wasm', 'S', r'verif_wload1_complex\(verif_in,\s*6\),?\s*\]', 'verif_wload1_complex(verif_in, 7) ]', 'perform_fft_contiguous'),
+    ('good_thomas', 'S', r'let increments_until_cycle =\s*1 \+ \(self\.len\(\) - destination_index\)', 'let increments_until_cycle = 2 + (self.len() - destination_index)', 'reindex_input'),
+    ('good_thomas', 'S', r'destination_index -= self\.width;', 'destination_index -= self.width - 1;', 'reindex_input'),
+    ('good_thomas', 'S', r'let start_x = self\.height - quotient;', 'let start_x = self.height - quotient - 1;', 'reindex_output'),
+    ('good_thomas', 'S', r'if width > height \{', 'if width > height + 1 {', 'new'),
     ('sse_radix4', 'S', r'let twiddle_offset = num_vector_columns \* \(ROW_COUNT - 1\);', 'let twiddle_offset = num_vector_columns * ROW_COUNT;', 'perform_fft_immut'),
     ('partial_factors', 'S', r'power3: self\.power3 - divisor\.power3,', 'power3: self.power3 - divisor.power2,', 'divide_by'),
     ('prime_roots', 'S', r'divisor \+= 2;', 'divisor += 4;', 'distinct_prime_factors'),
